@@ -27,7 +27,7 @@ theorem exec_move (v0 : Nat) (s : Sys) (h : Inv k v0 s) (i : String) (now : Int)
   have hne : (s.sv.conn i).queue ≠ [] := by rw [hq]; simp
   have e : step scriptTable s.sv c = exec s.sv i now := step_exec scriptTable s.sv c rfl
   refine ⟨fun hw => ?_, fun hw => ?_⟩
-  · rw [e, exec_watch_abort s.sv i now h1 h2 hne hw]
+  · rw [e, exec_watch_abort s.sv i now h1 h2 hw]
     exact ⟨rfl, resetConn_store _ _⟩
   · have hv : v = v0 + s.wins := hcl ((clean_iff_any _).mpr hw)
     have hcnt : CounterIs k s.sv.store v := by rw [hv]; exact h.cnt
